@@ -849,3 +849,81 @@ func allocateRemapTable(c *Ctx, da *ssa.Function) string {
 	}
 	return ""
 }
+
+// ruleAllocatePrefersFreeList (C10.R8): freed space is only reclaimed if db.allocate asks the free list
+// first, with the requested count, and returns the run it got without moving the high-water mark.
+func ruleAllocatePrefersFreeList(c *Ctx, id string) {
+	c.rule(id, "allocate-prefers-free-list", 1, func() {
+		da := c.fn("bbolt.(*DB).allocate")
+		bad := ""
+		for _, count := range []int64{1, 2, 17} {
+			for _, freeID := range []uint64{7, 0} {
+				var lastID V
+				var asked *int64
+				hwmMoved, remapped := false, false
+				ev := &Evaluator{
+					Load: func(u *ssa.UnOp) (V, bool) {
+						switch n := pathOf(u).Names(); {
+						case strings.HasSuffix(n, "MaxSize"):
+							return iV(0), true
+						case strings.HasSuffix(n, "pageSize"):
+							return iV(4096), true
+						case strings.HasSuffix(n, "datasz"):
+							return iV(1 << 20), true
+						}
+						return unkV, false
+					},
+					Param: func(p *ssa.Parameter) (V, bool) {
+						if p.Name() == "count" {
+							return iV(count), true
+						}
+						return symV(p.Name()), true
+					},
+					Call: func(call *ssa.Call, args []V) (V, bool) {
+						name := calleeOf(call).Name()
+						switch {
+						case strings.HasSuffix(name, ".Allocate"):
+							if g, ok := args[len(args)-1].Int(); ok {
+								asked = &g
+							}
+							return uV(freeID), true
+						case name == "common.(*Meta).Pgid":
+							return uV(100), true
+						case name == "common.(*Meta).SetPgid":
+							hwmMoved = true
+							return unkV, false
+						case name == "common.(*Page).SetId":
+							lastID = args[1]
+							return unkV, false
+						case name == "common.(*Page).Id":
+							return lastID, true
+						case name == "bbolt.(*DB).mmap":
+							remapped = true
+							return nilV, true
+						}
+						return successCall(call)
+					},
+				}
+				o := ev.Exec(da, nil)
+				switch {
+				case o.Kind != "return" || len(o.Rets) != 2 || o.Rets[1].K != vNil:
+					bad = fmt.Sprintf("allocate(count=%d) with a free run at %d: %s", count, freeID, o)
+				case asked == nil || *asked != count:
+					bad = fmt.Sprintf("allocate(count=%d) asks the free list for %v pages", count, deref(asked))
+				case freeID != 0:
+					if g, ok := lastID.Int(); !ok || uint64(g) != freeID || hwmMoved || remapped {
+						bad = fmt.Sprintf("allocate(count=%d): the free list offers a run at %d but the page gets id %s (high-water mark moved: %v, remapped: %v)", count, freeID, lastID, hwmMoved, remapped)
+					}
+				case freeID == 0:
+					if g, ok := lastID.Int(); !ok || g != 100 || !hwmMoved {
+						bad = fmt.Sprintf("allocate(count=%d) with an empty free list: id %s, high-water mark moved: %v (want id 100 and the mark advanced)", count, lastID, hwmMoved)
+					}
+				}
+				if bad != "" {
+					break
+				}
+			}
+		}
+		c.check(id+":(*DB).allocate:free-list-first", da, da.Pos(), "db.allocate asks the free list for exactly count pages first and, when a run is offered, returns it without touching the high-water mark or the mapping; only otherwise the file grows", bad == "", bad)
+	})
+}
